@@ -166,8 +166,16 @@ func hCommitR(K int, withSync bool, reads int) {
 
 func VerifHarness_C07_Conc_Commit2() { hCommit(2, false) }
 
-func VerifHarness_C07_Conc_Commit3_Thorough() { hCommit(3, true) }
+func VerifHarness_C07_Conc_Commit3_Thorough() {
+	sym.MaxPreempt(2)
+	hCommit(3, true)
+}
+
+func VerifHarness_C07_Conc_Commit2Sync_Thorough() { hCommit(2, true) }
 
 func VerifHarness_C06_Conc_Atomicity() { hCommitR(2, false, 1) }
 
-func VerifHarness_C06_Conc_Atomicity3_Thorough() { hCommitR(3, true, 2) }
+func VerifHarness_C06_Conc_AtomicitySync_Thorough() {
+	sym.MaxPreempt(2)
+	hCommitR(2, true, 2)
+}
